@@ -168,6 +168,12 @@ def finish(result, program, seed=0, repo_is_default=True):
 
 def write_evidence(result, program, seed, n_new, listed):
     from . import props
+    out_dir = EVIDENCE_DIR
+    if os.path.abspath(program.repo) != '/repo':
+        # scratch trees (self-validation, seeded changes) never overwrite
+        # the evidence of the repository itself
+        out_dir = os.path.join(EVIDENCE_DIR, 'scratch')
+        os.makedirs(out_dir, exist_ok=True)
     meta = props.PROPS[result.prop]
     insts = result.instances
     distinct = set()
@@ -225,7 +231,7 @@ def write_evidence(result, program, seed, n_new, listed):
             'coverage.units'],
         wall_s=round(time.time() - result.t0, 3),
         violations=n_new)
-    p = os.path.join(EVIDENCE_DIR, f'{result.prop}.json')
+    p = os.path.join(out_dir, f'{result.prop}.json')
     with open(p, 'w') as fd:
         json.dump(ev, fd, indent=1, default=str)
     return p
